@@ -53,7 +53,7 @@ func (k kexECDH) shared(c *Conn, priv *ecdh.PrivateKey, peer []byte) ([]byte, er
 }
 
 func (k kexECDH) Client(c *Conn, m *Magics) (*KexResult, error) {
-	priv, err := k.curve.GenerateKey(c.Cfg.Rand)
+	priv, err := k.ephemeral(c, hintBytes(c))
 	if err != nil {
 		return nil, err
 	}
@@ -94,7 +94,7 @@ func (k kexECDH) Server(c *Conn, m *Magics, hk HostKey, hostAlgo string) (*KexRe
 	if r.Err != nil || len(r.B) != 0 {
 		return nil, errors.New("refpeer: malformed KEX_ECDH_INIT")
 	}
-	priv, err := k.curve.GenerateKey(c.Cfg.Rand)
+	priv, err := k.ephemeral(c, qc)
 	if err != nil {
 		return nil, err
 	}
@@ -132,7 +132,7 @@ func (k kexCurve25519Ext) Client(c *Conn, m *Magics) (*KexResult, error) {
 	if c.Cfg.Ext == nil {
 		return k.plain.Client(c, m)
 	}
-	priv, pub := x25519Pair(c.Cfg.Rand)
+	priv, pub := c.x25519Ephemeral(hintBytes(c))
 	qc := c.tamperPub("Q_C", pub)
 	if err := c.KexWrite((&W{}).Byte(MsgKexECDHInit).Str(qc).B); err != nil {
 		return nil, err
@@ -187,7 +187,7 @@ func (k kexCurve25519Ext) Server(c *Conn, m *Magics, hk HostKey, hostAlgo string
 	if r.Err != nil || len(r.B) != 0 {
 		return nil, errors.New("refpeer: malformed KEX_ECDH_INIT")
 	}
-	priv, pub := x25519Pair(c.Cfg.Rand)
+	priv, pub := c.x25519Ephemeral(qc)
 	kc, err := x25519Shared(c, priv, qc)
 	if err != nil {
 		return nil, err
@@ -295,13 +295,18 @@ func (k kexMLKEM) Server(c *Conn, m *Magics, hk HostKey, hostAlgo string) (*KexR
 		if err != nil {
 			return nil, fmt.Errorf("refpeer: ML-KEM encapsulation key invalid: %w", err)
 		}
-		var pq []byte
-		pq, ct = ek.Encapsulate()
 		cl := ref.X25519(priv, qc[mlkem.EncapsulationKeySize768:])
 		if allZero(cl) && !c.skipChecks() {
 			return nil, errors.New("refpeer: all-zero X25519 secret")
 		}
-		kc = hybridK(pq, cl)
+		for i := 0; ; i++ {
+			var pq []byte
+			pq, ct = ek.Encapsulate()
+			kc = hybridK(pq, cl)
+			if !c.searching() || c.Cfg.Ext.AcceptK(kc) || i >= c.searchLimit() {
+				break
+			}
+		}
 	}
 	kc = c.tamperK(kc)
 	qs := c.tamperPub("Q_S", append(append([]byte{}, ct...), pub...))
